@@ -211,6 +211,11 @@ func (fl *flow) throughWrapper(call *ssa.Call, idx int, d int) (string, bool) {
 	case *ssa.Function:
 		if !call.Common().IsInvoke() && fl.p.transparentSite(v) != nil {
 			callee = v
+		} else if !call.Common().IsInvoke() && fl.p.isNewNamed(v) && len(v.Blocks) <= 3 {
+			// a small wrapper shared by several callers: rendered with its parameters bound to this call's arguments
+			callee = v
+			fl.p.pushBindings(v, call.Common().Args)
+			defer fl.p.popBindings(v, call.Common().Args)
 		}
 	}
 	if callee == nil || len(callee.Blocks) == 0 || d > 30 {
